@@ -140,6 +140,8 @@ class Ctx:
         self.stores: List[Any] = []
         self.global_cache: Dict[Any, Any] = {}
         self.yielded: List[Any] = []
+        self.call_log: List[Any] = []  # calls made through contracts on this path, in order (ghost; see speclib.CALLS)
+        self.entry_measure = None
 
     # ---- fresh symbols
     def fresh(self, base: str, sort):
@@ -802,6 +804,8 @@ class Engine:
         ns = NS(**{("self" if (self_obj is not None and k == all_args[0].arg) else k): v for k, v in args.items()})
         ns.__dict__["ctx"] = ctx
         if self_obj is not None and not is_init:
+            ns.__dict__["old"] = NS(**dict(self_obj.fields))  # field values at entry (for two-state postconditions)
+        if self_obj is not None and not is_init:
             for label, inv in self.class_invariants(ctx, self_obj):
                 ctx.assume(lift_bool(inv))
         for label, c in self.run_spec(ctx, lambda: contract.clauses("pre", ns)):
@@ -809,6 +813,9 @@ class Engine:
         if res is not None and res.entry_pc is None:
             res.entry_pc = list(ctx.pc)
             res.entry_axioms = list(ctx.axioms)
+        ctx.entry_measure = None
+        if contract.decreases is not None:
+            ctx.entry_measure = tuple(self.run_spec(ctx, contract.decreases, ns))
         env = Env(finfo.module, None, finfo)
         env.vars.update(args)
         outcome = None
@@ -862,17 +869,32 @@ class Engine:
         if matched is None:
             for xname in contract.may_raise:
                 if self.exc_matches(exc, xname):
+                    self._check_raise_post(ctx, contract, ns, exc)
                     return
             ctx.oblige("%s/noraise#%s" % (short(ctx.func), exc.clsname), z3.BoolVal(False), kind="noraise",
                        info={"exception": exc.clsname, "origin": exc.fields.get("__origin__")})
             return
         cond = contract.raises[matched]
+        self._check_raise_post(ctx, contract, ns, exc)
         if cond is None:
             return
         ns.__dict__["exc"] = exc
         c = self.run_spec(ctx, cond, ns)
         ctx.oblige("%s/raises#%s" % (short(ctx.func), matched), lift_bool(c), kind="raises",
                    info={"origin": exc.fields.get("__origin__")})
+
+    def _check_raise_post(self, ctx: Ctx, contract: Contract, ns: NS, exc: ExcVal):
+        """Exceptional postconditions (`raises_post`: exception class name -> fn(s) -> dict label -> clause): what holds
+           of the final state whenever an exception of that class escapes (one-sided, e.g. frame conditions)."""
+        rp = getattr(contract.impl, "raises_post", None)
+        if not rp:
+            return
+        ns.__dict__["exc"] = exc
+        for xname, fn in rp.items():
+            if self.exc_matches(exc, xname):
+                r = self.run_spec(ctx, fn, ns)
+                for label, c in (r.items() if isinstance(r, dict) else enumerate(r or [])):
+                    ctx.oblige("%s/raises-post#%s#%s" % (short(ctx.func), xname, label), lift_bool(c), kind="raises")
 
     def exc_matches(self, exc: ExcVal, name: str) -> bool:
         if isinstance(exc.cls, ClassInfo):
@@ -1713,6 +1735,16 @@ class Engine:
         for label, c in self.run_spec(ctx, lambda: contract.clauses("pre", ns)):
             ctx.oblige("%s/pre#%s#%s" % (short(ctx.func), callee, label), lift_bool(c), kind="pre")
             ctx.assume(lift_bool(c))
+        if contract.decreases is not None and getattr(ctx, "entry_measure", None) is not None and not ctx.spec_mode:
+            # recursion group: the callee's termination measure must be lexicographically below the measure that the
+            # function under verification had at entry, and bounded below
+            cm = tuple(self.run_spec(ctx, contract.decreases, ns))
+            ctx.oblige("%s/decreases#%s" % (short(ctx.func), callee), lex_less(cm, ctx.entry_measure), kind="decreases")
+        log_entry = None
+        if not ctx.spec_mode:
+            log_entry = {"callee": contract.qualname, "ns": ns, "index": len(ctx.call_log), "result": None,
+                         "returned": False}
+            ctx.call_log.append(log_entry)
         # exceptional outcomes: the callee may raise any X whose condition holds, and returns normally only if none does
         pending_raise = False
         names = list(contract.raises.items())
@@ -1749,6 +1781,9 @@ class Engine:
                     if k is not None:
                         nsd["self"].fields[fname] = ctx.fresh_kind("havoc." + fname, k)
         ns.__dict__["result"] = result
+        if log_entry is not None:
+            log_entry["result"] = result
+            log_entry["returned"] = True
         for label, c in self.run_spec(ctx, lambda: contract.clauses("post", ns)):
             ctx.assume(lift_bool(c))
         if is_init:
@@ -1947,6 +1982,19 @@ def _uf_apps_on(body, r):
 
 def contract_cls(engine, contract, cls):
     return cls
+
+
+def lex_less(a, b):
+    """(a1, a2, ...) < (b1, b2, ...) lexicographically over the naturals (every component of `a` is also >= 0)."""
+    def t(x):
+        return z3.IntVal(x) if isinstance(x, int) else x
+
+    a, b = [t(x) for x in a], [t(x) for x in b]
+    n = min(len(a), len(b))
+    alts = []
+    for k in range(n):
+        alts.append(z3.And(*([a[j] == b[j] for j in range(k)] + [a[k] < b[k]])))
+    return z3.And(z3.And(*[x >= 0 for x in a]), z3.Or(*alts))
 
 
 def speclib_and(*xs):
